@@ -26,6 +26,7 @@ class Opts:
         self.forwarders = 0.0      # probability that a clause is a pure forwarder  p(..) :- q(..).
         self.open_leaves = 0.0     # probability that a leaf fact's argument is a structure with fresh variables
         self.deep = False
+        self.churn = 0.0           # probability that the clauses of a predicate reuse the same variable names in changing roles (see gen_program)
         self.contdup = 0.0         # probability that a clause body has the shape  (A ; B), K  /  (C -> T ; E), K  (see contdup_body)
         self.__dict__.update(kw)
 
@@ -233,13 +234,29 @@ def gen_program(rng, o):
     for i, (name, ar) in enumerate(preds):
         callees = preds[i + 1:] + leaves + leaves + rec
         ncl = rng.choice([1, 1, 2, 2, 3, 4])
+        # "role churn": all clauses of the predicate use the same variable name for the same argument position, but in changing roles -
+        # plain argument (the compiler merely names the argument), nested in a structure, repeated in the head, only in the body,
+        # absent - so that anything the compiler keeps from one clause of a function to the next is visible
+        sig = None
+        if o.churn and ar > 0 and rng.random() < o.churn:
+            ncl = rng.choice([3, 3, 4, 5])
+            sig = rng.sample(VARS, ar) if rng.random() < 0.7 else [rng.choice(VARS[:2]) for _ in range(ar)]
         for ci in range(ncl):
             nv = rng.randrange(0, len(VARS) + 1)
             vars_ = VARS[:nv]
+            if sig is not None:
+                vars_ = list(dict.fromkeys(sig + vars_[:2]))
             head = []
-            for _ in range(ar):
+            for hk in range(ar):
                 q = rng.random()
-                if vars_ and q < 0.5:
+                if sig is not None:
+                    if q < 0.45: head.append(V(sig[hk]))
+                    elif q < 0.60: head.append(rng.choice([F('f', V(sig[hk])), ['list', [V(sig[hk])]], ['pair', V(sig[hk]), V('_')], F('g', V(sig[hk]), V(sig[hk]))]))
+                    elif q < 0.70: head.append(V(rng.choice(sig)))
+                    elif q < 0.82: head.append(rand_atom(rng, o))
+                    elif q < 0.88: head.append(V('_'))
+                    else: head.append(rand_sterm(rng, o, vars_, 2))
+                elif vars_ and q < 0.5:
                     head.append(V(rng.choice(vars_)))
                 elif q < 0.58:
                     head.append(V('_'))
@@ -700,6 +717,7 @@ def adversarial_variables(rng, clauses, p_clause=0.7, p_var=0.7, p_anon=0.25):
     counts = clause_anon_counts([c[:3] for c in tmp])
     total = sum(counts)
     start = 0
+    gm = {} if rng.random() < 0.4 else None      # one renaming for the whole program (names keep recurring across clauses) or one per clause
     for (name, args, body, vs, chosen), n in zip(tmp, counts):
         if chosen:
             near = set()
@@ -711,6 +729,10 @@ def adversarial_variables(rng, clauses, p_clause=0.7, p_var=0.7, p_anon=0.25):
             m = {}
             used = set(vs)
             for v in vs:
+                if gm is not None and v in gm:
+                    if gm[v] not in used:
+                        used.add(gm[v]); m[v] = gm[v]
+                    continue
                 if rng.random() >= p_var:
                     continue
                 for _ in range(8):
@@ -724,8 +746,9 @@ def adversarial_variables(rng, clauses, p_clause=0.7, p_var=0.7, p_anon=0.25):
                         # another variable of the clause in a different case / with underscores in front or behind
                         w = rng.choice(vs)
                         nm = rng.choice(['_' + w, '__' + w, w + '_', w + w.lower(), w + w, 'V_' + w, w[0] + '_' + w[1:], w.upper(), w + '1', w + '_1'])
-                    if nm not in used and nm != '_':
+                    if nm not in used and nm != '_' and (gm is None or nm not in gm.values()):
                         used.add(nm); m[v] = nm
+                        if gm is not None: gm[v] = nm
                         break
             fv = lambda t: V(m.get(t[1], t[1]))
             ida = lambda t: t
@@ -785,3 +808,29 @@ def adversarial_program(rng, prog):
     if r > 0.6:
         p = adversarial_symbols(rng, p)
     return p
+
+def _has_cut_construct(body):
+    """does body contain a \\+ or an if-then(-else) whose goal / condition has a cut of its own?"""
+    k = body[0]
+    if k == 'not':
+        return has_opaque_cut(body[1], True) or _has_cut_construct(body[1])
+    if k == 'if':
+        return has_opaque_cut(body[1], True) or _has_cut_construct(body[1]) or _has_cut_construct(body[2])
+    if k in ('and', 'or'):
+        return _has_cut_construct(body[1]) or _has_cut_construct(body[2])
+    return False
+
+def has_dup_continuation(body, local_cut=False, cont=None):
+    """is there a disjunction / if-then(-else) that is followed by a non-trivial goal in a conjunction (so that compile_body compiles
+    the continuation once per alternative)?  With local_cut: ... and the continuation contains a construct whose condition has a cut"""
+    k = body[0]
+    if k == 'and':
+        rest = body[2] if cont is None else ['and', body[2], cont]
+        return has_dup_continuation(body[1], local_cut, rest) or has_dup_continuation(body[2], local_cut, cont)
+    if k in ('or', 'if'):
+        if cont is not None and (_has_cut_construct(cont) if local_cut else bool(constructs(cont) & {'or', 'if', 'not', 'cut', 'call'})):
+            return True
+        return has_dup_continuation(body[1], local_cut, cont if k == 'or' else None) or has_dup_continuation(body[2], local_cut, cont)
+    if k == 'not':
+        return has_dup_continuation(body[1], local_cut, None)
+    return False
